@@ -1,4 +1,4 @@
-HOOK_COMMITS = []
+HOOK_COMMITS = ["0c69e81"]
 NOT_APPLICABLE = {}
 TEXT = {
     "C01": {
@@ -15,6 +15,21 @@ TEXT = {
         "technique": "bounded exhaustive enumeration + rapid shaped values against an independent CSS Syntax 3 tokenizer/parser, function level and through compiled css-component / style-attribute fixtures",
         "level": "Exploration: values = all sequences of <=3 (quick) / <=4 (thorough) tokens over a 29-token CSS-adversarial alphabet x 17 property names of every class, plus rapid-generated url()/quoted/comma-list shapes and generated names; the emitted text is embedded in a rule list and parsed by an independent CSS tokenizer/parser: the author's rules and declarations must be intact and the value free of ';', blocks, comments, bad tokens, at-keywords, non-url functions, forbidden url schemes and </style. Rendered: css component in <style>, style={map}, style={KV}, style={[]any} fixtures decoded by the HTML tokenizer first.",
         "note": "Trusted: oracle/csstok as the browser's CSS parser, oracle/urlscheme for url() arguments. SafeCSS/SafeCSSProperty/plain string style values are documented pass-throughs and not checked.",
+    },
+    "C11": {
+        "technique": "rapid-generated request histories with injected render failures at every chunk index, exact response oracle (ResponseRecorder and real loopback server)",
+        "level": "Fault enumeration: a component that writes k generated chunks (0..64KiB, crossing the 4KiB buffer) and fails after chunk j for every j, under generated handler configurations (status, content type, five error-handler behaviours, streaming as the documented contrast), in histories of up to 12 requests sharing the buffer pool; the response must be exactly the document with the configured status/type, or exactly the default 500 message / the error handler's own response with no document byte.",
+        "note": "Trusted: httptest.ResponseRecorder and net/http as the observer. Chunk alphabet is disjoint from error texts. Streaming mode is only sanity-checked (partial output is documented there).",
+    },
+    "C18": {
+        "technique": "rapid round-trip with generated chunkings, damaged-frame generation + native fuzzing of stream.Read, and randomised concurrent plans against a scripted peer under the race detector",
+        "level": "Exploration: (a) generated message sequences are written, each frame re-parsed by an independent parser (Content-Length counts bytes), and read back through generated chunkings - equality of kind/id/method/canonical JSON; (b) generated damage to frames and coverage-guided fuzzing (thorough): error, never panic, never a hang, never more messages than complete frames; (c) generated plans of concurrent callers/notifiers with cancellations against a peer answering in permuted batches, late and never, with late duplicates: no interleaved frame at the peer, each call gets its own response or its own cancellation, the connection keeps working; -race.",
+        "note": "Trusted: the harness's own frame parser and scripted peer. Schedules are sampled (Go scheduler), not enumerated; liveness is 'returns within 30 s'.",
+    },
+    "C19": {
+        "technique": "rapid-generated operation plans executed in child processes under -race, with the hazardous schedule forced through a build-tag hook",
+        "level": "Exploration: generated plans of subscribe / cancel / stall / broadcast / park-release operations over up to 5 in-process clients of one sse.Handler; the 'client unregistered while a delivery is pending' schedule is forced deterministically via the verif hook (half of all plans), the rest is stress; each plan runs in its own process so that a panic in a delivery goroutine is observed as the crash it is. Oracle: process survives, no race, Send returns within 2 s with a stalled client present, every continuously connected client receives every broadcast.",
+        "note": "Trusted: the in-process client model (ResponseWriter whose Write can block). Without the hook (guard off) only the stress part would apply. Liveness is bounded waiting (10 s per expectation).",
     },
     "C17": {
         "technique": "bounded exhaustive enumeration + rapid edit-sequence generation against a byte-splice reference model",
